@@ -67,8 +67,13 @@ ModeClause(g, p) ==
   LET b == g.bind[p.mac]  mode == IF b.mode # -1 THEN b.mode ELSE g.default IN
   CASE mode = 0 -> "DisabledForwards" [] mode = 1 -> "StrictExact" [] mode = 2 -> "LooseInRange" [] mode = 3 -> "LogOnlyForwards" [] OTHER -> "AsWritten"
 
+\* cfg.noconfig: the loaded object has no antispoof_config map (it is optional), so the default mode cannot reach
+\* the data plane and nothing is claimed for senders without a binding; bindings still carry the mode they were
+\* written under
 NodeClauses(cfg, g, n) ==
-  UNION { LET p == cfg.probes[i]  x == Expect(g, p)  v == n.verdict[i] IN
+  UNION { LET p == cfg.probes[i]
+              x == IF cfg.noconfig /\ g.bind[p.mac].mode = -1 THEN "any" ELSE Expect(g, p)
+              v == n.verdict[i] IN
              (IF (x = "fwd" /\ v # Forward) \/ (x = "drop" /\ v # Drop) THEN {ModeClause(g, p), "AsWritten"} ELSE {})
         \cup (IF v = Forward /\ ~n.unmod[i] THEN {"PassUnmodified"} ELSE {})
         \cup (IF v \notin {Forward, Drop} THEN {"StrictExact"} ELSE {})
